@@ -82,6 +82,16 @@ func c17Pinned(name string) c17Case {
 		s.AddObject(ast.NewObject("p", "D", ast.NewStruct(ast.NewStructField("n1", n2), ast.NewStructField("own", ast.String()))))
 		f.Builders = []map[string]any{{"merge_into": map[string]any{"destination": "D", "source": "I", "under_path": "n1.n2.s3"}}}
 		f.Options = []map[string]any{{"struct_fields_as_options": map[string]any{"by_name": "D.n1"}}}
+	case "sf-args-twice":
+		v := ast.String()
+		v.Scalar.Value = "x"
+		vf := ast.NewStructField("v", v)
+		vf.Required = true
+		s.AddObject(ast.NewObject("p", "R", ast.NewStruct(vf, ast.NewStructField("r", ast.NewRef("p", "R")))))
+		f.Options = []map[string]any{
+			{"struct_fields_as_arguments": map[string]any{"by_name": "R.r"}},
+			{"struct_fields_as_arguments": map[string]any{"by_name": "R.r"}},
+		}
 	case "compose-then-initialize":
 		// the composed builder starts from a by-value copy of the source builder's Constructor: both
 		// slices share one backing array with spare capacity (3 constants appended one by one: cap 4)
@@ -106,4 +116,4 @@ func c17Pinned(name string) c17Case {
 	return cs
 }
 
-var c17PinnedNames = []string{"dup-option-default", "dup-builder-default", "dismissed", "rename-args-constraint", "promote-array-to-append", "merge-rename-arguments", "map-index-unfold", "sf-opts-after-append", "add-assignment-array-to-append", "map-index-promote", "append-then-map-to-index"}
+var c17PinnedNames = []string{"dup-option-default", "dup-builder-default", "dismissed", "rename-args-constraint", "promote-array-to-append", "merge-rename-arguments", "map-index-unfold", "sf-opts-after-append", "add-assignment-array-to-append", "map-index-promote", "append-then-map-to-index", "sf-args-twice"}
